@@ -11,11 +11,11 @@ import (
 	"github.com/emitter-io/emitter/internal/message"
 	"github.com/emitter-io/emitter/internal/verifauto"
 	"github.com/emitter-io/emitter/internal/verifyield"
-	"github.com/weaveworks/mesh"
 	"github.com/emitter-io/emitter/verifsim/kernel"
 	"github.com/emitter-io/emitter/verifsim/model"
 	"github.com/emitter-io/emitter/verifsim/mqttc"
 	"github.com/emitter-io/emitter/verifsim/world"
+	"github.com/weaveworks/mesh"
 )
 
 // C05 — cluster routing follows the replicated subscription state.
@@ -23,9 +23,9 @@ import (
 func init() {
 	kernel.Register(&kernel.World{
 		Property: "C05", Bubble: true, Run: runC05, RunsPerProc: 40, RunTimeout: 300 * time.Second,
-		Rule: "one run = 2-4 real brokers on the simulated mesh (full mesh or line), 1-2 clients per broker; tape-generated subscribe / unsubscribe / abrupt disconnect + reconnect bursts on channels {a/, b/, a/b/, b/a/}; every transport event (which link sender runs, which in-flight message is delivered, GC notifications), every clock advance (us..31 s: peer send queues, emitter's 5 s update, periodic full-state gossip) and, by campaign (A schedules only, B + link down / partition / heal, C + broker crash and restart on a crash image, clean stop and restart, D schedules + two gossip messages delivered to one broker by two goroutines interleaved at the yield points of Swarm.merge, E schedules + a client's subscribe / unsubscribe served by its connection goroutine while a link goroutine merges gossip for the same broker, interleaved at every mutex / sync.Map boundary of swarm.go and internal/event/crdt that tools/autoyield instrumented, by a uniform, a depth-preemptive or a sticky-biased policy chosen by the tape) every fault is a tape decision. At quiescence (faults stopped, links healed by emitter's own Join loop, 150 simulated seconds): no Gossiper callback panicked; every broker's trie holds the remote entry (filter, peer P) iff P has a live local subscriber with that filter; one probe publish per (broker, channel) reaches every matching subscriber on every broker exactly once and nobody else. non-trivial = >= 1 remote route expected at quiescence; distinct = distinct canonical logs",
-		Real:  []string{"broker.Service x N", "cluster.Swarm (Notify, merge, onPeerOnline/Offline, update, Join)", "cluster.Peer (counters, send queue)", "event.State / crdt (durable)", "pubsub, message.Trie", "Service.onPeerMessage"},
-		Stub:  []string{"weaveworks/mesh (simmesh transcription: per-link senders, broadcast tree, relays, periodic gossip, full state on link-up, GC)", "client sockets (simnet)", "clock (synctest)"},
+		Rule:        "one run = 2-4 real brokers on the simulated mesh (full mesh or line), 1-2 clients per broker; tape-generated subscribe / unsubscribe / abrupt disconnect + reconnect bursts on channels {a/, b/, a/b/, b/a/}; every transport event (which link sender runs, which in-flight message is delivered, GC notifications), every clock advance (us..31 s: peer send queues, emitter's 5 s update, periodic full-state gossip) and, by campaign (A schedules only, B + link down / partition / heal, C + broker crash and restart on a crash image, clean stop and restart, D schedules + two gossip messages delivered to one broker by two goroutines interleaved at the yield points of Swarm.merge, E schedules + a client's subscribe / unsubscribe served by its connection goroutine while a link goroutine merges gossip for the same broker, interleaved at every mutex / sync.Map boundary of swarm.go and internal/event/crdt that tools/autoyield instrumented, by a uniform, a depth-preemptive or a sticky-biased policy chosen by the tape) every fault is a tape decision. At quiescence (faults stopped, links healed by emitter's own Join loop, 150 simulated seconds): no Gossiper callback panicked; every broker's trie holds the remote entry (filter, peer P) iff P has a live local subscriber with that filter; one probe publish per (broker, channel) reaches every matching subscriber on every broker exactly once and nobody else. non-trivial = >= 1 remote route expected at quiescence; distinct = distinct canonical logs",
+		Real:        []string{"broker.Service x N", "cluster.Swarm (Notify, merge, onPeerOnline/Offline, update, Join)", "cluster.Peer (counters, send queue)", "event.State / crdt (durable)", "pubsub, message.Trie", "Service.onPeerMessage"},
+		Stub:        []string{"weaveworks/mesh (simmesh transcription: per-link senders, broadcast tree, relays, periodic gossip, full state on link-up, GC)", "client sockets (simnet)", "clock (synctest)"},
 		Assumptions: []string{"outside campaigns D and E Gossiper callbacks run one at a time (the real mesh runs one receive loop per link)", "topology knowledge in the mesh is immediate (its own topology gossip is not simulated)", "a live mesh link is a TCP stream: FIFO, lossless; loss only when a link or node goes down", "a broker's own clock strictly increases between two client operations and between two critical sections of concurrent goroutines in campaign E (no timestamp ties inside one broker; ties and skew between replicas are explored by C04/C13)", "brokers' clocks are synchronised and every transport event (delivery, connect, link down, partition, kill) happens at least 1 us after its cause"},
 	})
 }
@@ -38,14 +38,15 @@ type c05Client struct {
 }
 
 type c05World struct {
-	c       *kernel.Ctx
-	cl      *world.Cluster
-	key     string
-	clients []*c05Client
-	nclient int
-	chans   []string
-	mode    string
-	down    map[int]bool
+	longAdvances int
+	c            *kernel.Ctx
+	cl           *world.Cluster
+	key          string
+	clients      []*c05Client
+	nclient      int
+	chans        []string
+	mode         string
+	down         map[int]bool
 }
 
 func (w *c05World) attach(b int) *c05Client {
@@ -197,6 +198,23 @@ func runC05(c *kernel.Ctx) {
 			cl.NetStep()
 		case k < 90:
 			d := []time.Duration{5 * time.Millisecond, 5 * time.Millisecond, time.Second, 5 * time.Second, 31 * time.Second}[t.Choose(5)]
+			if (campaign == "B" || campaign == "C") && w.longAdvances < 1 && t.Chance(1, 30) {
+				// an outage (or a quiet spell) that lasts: 16-45 minutes pass, far more than any gossip interval,
+				// far less than the six hours after which removals are forgotten by design
+				d = time.Duration(t.Range(16, 45)) * time.Minute
+				w.longAdvances++
+				for el := time.Duration(0); el < d; el += time.Minute {
+					w.keepalive()
+					cl.AdvanceNet(time.Minute)
+					cl.Drain(2000)
+				}
+				for _, cc := range w.live() {
+					cc.cl.Recv()
+				}
+				c.Fault("long-outage")
+				c.Logf("advance %v", d)
+				break
+			}
 			if d >= time.Second {
 				w.keepalive()
 			}
@@ -583,10 +601,18 @@ func (w *c05World) checkDelivery() {
 	seq := 0
 	for b := range cl.Brokers {
 		for _, ch := range []string{"a/", "b/", "a/b/", "b/a/", "a/b/x/"} {
+			// a short train of publishes written one after the other with no time passing in between: on their
+			// way to another broker they sit in the same peer queue until its next flush
 			seq++
-			payload := fmt.Sprintf("probe-%d", seq)
-			probes[b].Send(probes[b].Publish(w.key+"/"+ch, []byte(payload), false, false))
-			world.Settle()
+			train := 1 + seq%3
+			var payloads []string
+			for k := 0; k < train; k++ {
+				pl := fmt.Sprintf("probe-%d-%d", seq, k)
+				payloads = append(payloads, pl)
+				probes[b].Send(probes[b].Publish(w.key+"/"+ch, []byte(pl), false, false))
+				world.Settle()
+			}
+			payload := payloads[0]
 			for i := 0; i < 4; i++ {
 				cl.AdvanceNet(5 * time.Millisecond)
 				cl.Drain(2000)
@@ -597,15 +623,28 @@ func (w *c05World) checkDelivery() {
 					c.Failf("deliver-extra", "undecodable", "%v", err)
 				}
 				n := 0
+				var order []string
 				for _, p := range pk {
-					if pub, ok := p.(*packets.PublishPacket); ok && string(pub.Payload) == payload {
-						n++
+					if pub, ok := p.(*packets.PublishPacket); ok {
+						if string(pub.Payload) == payload {
+							n++
+						}
+						order = append(order, pub.TopicName+"="+string(pub.Payload))
 					}
 				}
 				exp := 0
 				for f := range cc.subs {
 					if model.Match(w.mode, model.Levels(f), model.Levels(ch)) {
 						exp = 1
+					}
+				}
+				if exp == 1 && train > 1 {
+					var want []string
+					for _, pl := range payloads {
+						want = append(want, ch+"="+pl)
+					}
+					if strings.Join(order, " ") != strings.Join(want, " ") && n == exp {
+						c.Check("deliver-missing", "train", "%d publishes written back to back on b%d to %s reached %s on b%d as %v, expected %v", train, b, ch, cc.name, cc.broker, order, want)
 					}
 				}
 				where := "remote"
